@@ -20,6 +20,7 @@
 (*                            rcur = that object was the configured one     *)
 (*                            when the call was made; reqt = time of the    *)
 (*                            (first) call; b, a = bucket / age afterwards  *)
+(*   cancel: c t              the task inside take_tokens() of c was cancelled  *)
 (*   set   : t k b a          set_*_speed_limit(k); b, a of the new object  *)
 (*   end   : t w k            end of the run; w = longest time a still      *)
 (*                            pending call has waited, k its limit          *)
@@ -65,6 +66,8 @@ TInit ==
   /\ bypass = [c \in Conns |-> 0]
   /\ acct = NoAcct
   /\ changes = 0
+  /\ cancels = 0
+  /\ stuck = {}
   /\ last = [ev |-> "init", c |-> 0, n |-> 0, g |-> 1, waited |-> 0, k |-> 0]
   /\ now = 0
   /\ expect = NoExpect
@@ -82,7 +85,7 @@ TTick ==
        /\ now' = now + d
        /\ IF Exact THEN Tick(d)
           ELSE /\ acct' = AcctDrain(acct, Cur.k, Cur.k * d)
-               /\ UNCHANGED <<gens, pc, on, rem, queue, since, bypass, changes, last>>
+               /\ UNCHANGED <<gens, pc, on, rem, queue, since, bypass, changes, cancels, stuck, last>>
   /\ UNCHANGED <<tid, l, expect, used>>
 
 AtTime == Rec.t = now
@@ -102,7 +105,7 @@ PGrant ==
         /\ used' = IF inflight THEN used \cup {<<Rec.c, Rec.g>>} ELSE used
   /\ last' = [ev |-> "grant", c |-> Rec.c, n |-> Rec.n, g |-> Rec.g,
               waited |-> Rec.t - Rec.reqt, k |-> gens[Rec.g].k]
-  /\ UNCHANGED <<pc, on, rem, queue, since, bypass, changes, now, expect>>
+  /\ UNCHANGED <<pc, on, rem, queue, since, bypass, changes, cancels, stuck, now, expect>>
   /\ Consume
 
 PSet ==
@@ -112,12 +115,12 @@ PSet ==
   /\ acct' = AcctSet(acct, Cur.k, Rec.k)
   /\ changes' = changes + 1
   /\ last' = [ev |-> "set", c |-> 0, n |-> Rec.k, g |-> CurIdx + 1, waited |-> 0, k |-> Rec.k]
-  /\ UNCHANGED <<pc, on, rem, queue, since, bypass, now, expect>>
+  /\ UNCHANGED <<pc, on, rem, queue, since, bypass, cancels, stuck, now, expect>>
   /\ Consume
   /\ KeepUsed
 
 PSkip ==
-  /\ ~Exact /\ (IsEv("req") \/ IsEv("sleep")) /\ AtTime
+  /\ ~Exact /\ (IsEv("req") \/ IsEv("sleep") \/ IsEv("cancel")) /\ AtTime
   /\ UNCHANGED <<vars, now, expect>>
   /\ Consume
   /\ KeepUsed
@@ -125,7 +128,7 @@ PSkip ==
 TEnd ==
   /\ IsEv("end") /\ AtTime
   /\ last' = [ev |-> "pending", c |-> 0, n |-> 0, g |-> CurIdx, waited |-> Rec.w, k |-> Rec.k]
-  /\ UNCHANGED <<gens, pc, on, rem, queue, since, bypass, acct, changes, now, expect>>
+  /\ UNCHANGED <<gens, pc, on, rem, queue, since, bypass, acct, changes, cancels, stuck, now, expect>>
   /\ Consume
   /\ KeepUsed
 
@@ -166,6 +169,14 @@ XPoll ==
   /\ UNCHANGED <<now, expect>> /\ Consume
   /\ KeepUsed
 
+\* the task inside take_tokens() of connection c was cancelled
+XCancel ==
+  /\ Exact /\ IsEv("cancel") /\ AtTime /\ expect = NoExpect
+  /\ Rec.c \in Conns
+  /\ Cancel(Rec.c)
+  /\ UNCHANGED <<now, expect>> /\ Consume
+  /\ KeepUsed
+
 XSet ==
   /\ Exact /\ IsEv("set") /\ AtTime /\ expect = NoExpect
   /\ Rec.k >= 0
@@ -183,7 +194,7 @@ Done ==
 
 Finished == l = Len(T) + 2 /\ UNCHANGED tvars
 
-TNext == TTick \/ PGrant \/ PSet \/ PSkip \/ TEnd \/ XReq \/ XFirst \/ XPoll \/ XSet \/ Done \/ Finished
+TNext == TTick \/ PGrant \/ PSet \/ PSkip \/ TEnd \/ XReq \/ XFirst \/ XPoll \/ XCancel \/ XSet \/ Done \/ Finished
 
 TSpec == TInit /\ [][TNext]_tvars
 
